@@ -12,13 +12,13 @@ Import ListNotations.
 Local Open Scope N_scope.
 
 Definition clv (r : resp) : list str := clvals (r_headers r).
-Definition is_list (r : resp) : Prop := match r_app r with AList _ => True | AIter _ _ => False end.
+Definition is_list (r : resp) : Prop := match r_app r with AList _ => True | _ => False end.
 
 (* THE invariant: every Content-Length header present is str(number of bytes that will be yielded);
    a response whose body is a not-yet-consumed iterator carries none *)
 Definition cl_inv (r : resp) : Prop :=
   Forall (fun v => v = dec (blen (content r))) (clv r) /\
-  match r_app r with AIter _ _ => clv r = [] | AList _ => True end.
+  match r_app r with AIter _ _ => clv r = [] | _ => True end.
 
 (* the caller's own header list carries no Content-Length of its own *)
 Definition wf_args (a : cargs) : Prop :=
@@ -46,7 +46,7 @@ Proof. cbn. apply app_nil_r. Qed.
 
 (* ---------- ways to establish the invariant ---------- *)
 Lemma inv_no_cl r : clv r = [] -> cl_inv r.
-Proof. intros H. split; [rewrite H; constructor|]. destruct (r_app r); [exact I|exact H]. Qed.
+Proof. intros H. split; [rewrite H; constructor|]. destruct (r_app r); [exact I|exact H|exact I]. Qed.
 
 Lemma inv_cl_del r : cl_inv (cl_del r).
 Proof. apply inv_no_cl. apply clv_cl_del. Qed.
@@ -62,7 +62,7 @@ Lemma inv_keep r r' : cl_inv r -> clv r' = clv r -> content r' = content r ->
 Proof.
   intros [F A] Hc Hb Hk. split; [rewrite Hc, Hb; exact F|].
   destruct Hk as [Hk|Hk].
-  - unfold is_list in Hk. destruct (r_app r'); [exact I|contradiction].
+  - unfold is_list in Hk. destruct (r_app r'); [exact I|contradiction|contradiction].
   - rewrite Hk, Hc. exact A.
 Qed.
 
@@ -104,9 +104,10 @@ Lemma get_body_cases r :
           | Ok (Some n) => if n =? blen body then (r1, Ok body) else (r1, Exc E_Assert)
           end).
 Proof.
-  unfold get_body, content. destruct (r_app r) as [[|b [|b2 cs]]|cl cs] eqn:Ea.
+  unfold get_body, content. destruct (r_app r) as [[|b [|b2 cs]]|cl cs|cs] eqn:Ea.
   - right. reflexivity.
   - left. exists b. split; reflexivity.
+  - right. reflexivity.
   - right. reflexivity.
   - right. reflexivity.
 Qed.
@@ -208,12 +209,14 @@ Qed.
 Lemma write_bytes_pre r :
   let r1 := match r_app r with
             | AList _ => r
-            | AIter _ cs => cl_set (with_app r (AList cs)) (sum_len cs)
+            | a => cl_set (with_app r (AList (chunks a))) (sum_len (chunks a))
             end in
   cl_inv r -> cl_inv r1 /\ is_list r1 /\ content r1 = content r.
 Proof.
-  intros r1 Hi. subst r1. unfold is_list. destruct (r_app r) as [cs|cl cs] eqn:Ea.
+  intros r1 Hi. subst r1. unfold is_list. destruct (r_app r) as [cs|cl cs|cs] eqn:Ea.
   - rewrite Ea. split; [exact Hi|split; [exact I|reflexivity]].
+  - split; [apply inv_cl_set_list; apply sum_len_concat|]. split; [exact I|].
+    unfold content. rewrite Ea. reflexivity.
   - split; [apply inv_cl_set_list; apply sum_len_concat|]. split; [exact I|].
     unfold content. rewrite Ea. reflexivity.
 Qed.
@@ -224,7 +227,7 @@ Lemma write_bytes_spec x r : cl_inv r ->
 Proof.
   intros Hi. unfold write_bytes.
   destruct (write_bytes_pre r Hi) as [H1 [Hl Hc]].
-  set (r1 := match r_app r with AList _ => r | AIter _ cs => cl_set (with_app r (AList cs)) (sum_len cs) end) in *.
+  set (r1 := match r_app r with AList _ => r | a => cl_set (with_app r (AList (chunks a))) (sum_len (chunks a)) end) in *.
   set (r2 := with_app r1 (AList (chunks (r_app r1) ++ [x]))).
   assert (C2 : content r2 = content r ++ x).
   { unfold r2. rewrite content_with_app. cbn [chunks]. rewrite concat_app, concat_single, <- Hc. reflexivity. }
@@ -358,17 +361,55 @@ Section Ops.
   Lemma call_inv head r : cl_inv r -> cl_inv (after (call uj head r)).
   Proof.
     intros Hi. unfold call. destruct head; cbn [after].
-    - destruct (r_app r) as [cs|[|] cs] eqn:Ea; try exact Hi.
+    - destruct (r_app r) as [cs|[|] cs|cs] eqn:Ea; try exact Hi.
       apply inv_iter_drained; [exact Hi|exists cs; exact Ea].
-    - destruct (r_app r) as [cs|cl cs] eqn:Ea; [exact Hi|].
+    - destruct (r_app r) as [cs|cl cs|cs] eqn:Ea; [exact Hi| |exact Hi].
       apply inv_iter_drained; [exact Hi|exists cs; exact Ea].
   Qed.
 
   Definition step' := step gz gunzip inflate md5b64 uj c.
 
-  Theorem step_inv r o : cl_inv r -> cl_inv (fst (step' r o)).
+  (* the one operation that writes a Content-Length of the caller's choosing: r.content_length = n
+     (deleting it, r.content_length = None, is harmless) *)
+  Definition raw_edit (o : op) : Prop :=
+    match o with OSetContentLength (Some _) => True | _ => False end.
+
+  (* body mutations after which the Content-Length is right again WHATEVER it was before: they clear or
+     rewrite it (response.py: _body__set, _app_iter__set, _app_iter__del) *)
+  Definition resetting (o : op) : Prop :=
+    match o with OSetBody _ | ODelBody | OSetAppIter _ | ODelAppIter => True | _ => False end.
+
+  Theorem step_resets r o : resetting o -> cl_inv (fst (step' r o)).
   Proof.
-    intros Hi. unfold step', step. destruct o.
+    unfold step', step. destruct o; try contradiction; intros _; cbn [fst].
+    - apply set_body_inv.
+    - apply set_body_inv.
+    - apply set_app_iter_inv.
+    - apply del_app_iter_inv.
+  Qed.
+
+  (* so does a gzip encode that really encodes, and a text assignment that succeeds *)
+  Lemma encode_resets l r :
+    (match content_encoding r with Some v => str_eqb v (s2l "gzip") = false | None => True end) ->
+    cl_inv (fst (encode_content gz gunzip inflate true l r)).
+  Proof.
+    intros Hn. unfold encode_content. cbn [negb].
+    replace (match content_encoding r with Some v => str_eqb v (s2l "gzip") | None => false end) with false
+      by (destruct (content_encoding r); [symmetry; exact Hn|reflexivity]).
+    cbn [fst]. apply inv_keep_headers.
+    - destruct l; [apply inv_cl_del|]. unfold set_app_iter. apply inv_cl_set_list. apply sum_len_concat.
+    - apply clvals_hset_plain_other. exact N_CE_ne.
+  Qed.
+
+  Lemma set_text_resets t r r0 : set_text t r = (r0, None) -> cl_inv r0.
+  Proof.
+    intros H. destruct (set_text_cases t r) as [[x E]|[b [E _]]]; rewrite E in H; [discriminate|].
+    injection H as <-. apply set_body_inv.
+  Qed.
+
+  Theorem step_inv r o : ~ raw_edit o -> cl_inv r -> cl_inv (fst (step' r o)).
+  Proof.
+    intros Hraw Hi. unfold step', step. destruct o.
     - apply set_body_inv.
     - apply set_body_inv.
     - pose proof (set_text_inv t r Hi) as H. destruct (set_text t r). exact H.
@@ -391,14 +432,22 @@ Section Ops.
       + pose proof (clvals_hset_other N_LOC x (r_headers r) N_LOC_ne) as H.
         destruct (hset N_LOC x (r_headers r)) as [h e]. cbn [fst] in *. apply inv_keep_headers; assumption.
       + apply inv_keep_headers; [exact Hi|]. apply clvals_hdel_other. exact K_LOC_ne.
+    - destruct n as [x|]; cbn [fst]; [exfalso; apply Hraw; exact I|apply inv_cl_del].
     - cbn [fst]. apply call_inv. exact Hi.
   Qed.
 
-  Theorem run_inv ops : forall r, cl_inv r -> cl_inv (run_ops gz gunzip inflate md5b64 uj c ops r).
+  Theorem run_inv ops : Forall (fun o => ~ raw_edit o) ops ->
+    forall r, cl_inv r -> cl_inv (run_ops gz gunzip inflate md5b64 uj c ops r).
   Proof.
-    induction ops as [|o ops IH]; intros r Hi; [exact Hi|].
-    unfold run_ops. cbn [fold_left]. apply IH. apply (step_inv r o Hi).
+    induction 1 as [|o ops Ho _ IH]; intros r Hi; [exact Hi|].
+    unfold run_ops. cbn [fold_left]. apply IH. apply (step_inv r o Ho Hi).
   Qed.
+
+  (* after ANY state (any earlier history, hand-written Content-Length included), a resetting body
+     mutation followed by operations that do not write a Content-Length by hand *)
+  Theorem run_inv_after_reset r o ops : resetting o -> Forall (fun o => ~ raw_edit o) ops ->
+    cl_inv (run_ops gz gunzip inflate md5b64 uj c ops (fst (step' r o))).
+  Proof. intros Hr Hf. apply run_inv; [exact Hf|]. apply step_resets. exact Hr. Qed.
 
   (* the constructor establishes it *)
   Theorem mk_inv a r : wf_args a -> mk c a = Ok r -> cl_inv r.
